@@ -462,6 +462,11 @@ def make_gradient_glue(entry, full_output):
                             (z3.And(to_num(log['dl'][0].shape[1]) == num_s, z3.ForAll([r_, c_], z3.Implies(z3.And(r_ >= 0, r_ < n, c_ >= 0, c_ < num_s), log['dl'][0].get((r_, c_)) == SOL.get((r_, six(c_))))))
                              if (len(log['dl']) == 1 and isinstance(log['dl'][0], SArr) and log['dl'][0].rank == 2) else False)))
         res = out.value[0] if full_output else out.value
+        # ownership: sens_to_grad and sens_to_jtj weight their argument IN PLACE (np.reshape returns a view of an F-contiguous
+        # array), so every call must get its own fresh selection, never the stored solution or an array that is used again
+        handed = [a for a, _ in log['grad']] + [a for a, _ in log['jtj']]
+        vc.ensure('each chain-rule / Gauss-Newton call gets its own fresh copy of the selected columns (they are weighted in place)',
+                  all(h is not SOL for h in handed) and len({id(h) for h in handed}) == len(handed))
         if entry == 'jtj':
             vc.ensure('sens_to_jtj gets the target-parameter sensitivity columns and no residual', allof(len(log['jtj']) == 1, is_selection(log['jtj'][0][0], idx) if log['jtj'] else False, (log['jtj'][0][1] is None) if log['jtj'] else False))
             vc.ensure('its result is returned', res is JT)
